@@ -847,6 +847,14 @@ class World(OpsMixin, OracleMixin):
             self.start_gac(step, ("intruder",))
         else:
             self.do_op(step, ("intruder",))
+            tg = step.get("then_gac")
+            if tg is not None:
+                # the same coroutine goes on to close the pool without yielding: `pool.cancel_all(); await pool.gather_and_close()`
+                pr = self.pools[tg["pool"]]
+                if not (pr.closing or pr.closed) and not (pr.size == 0 and self.pending_work(pr)):
+                    pr.closing = True
+                    self.sit["C08.close_in_the_same_handle_as_cancel"] += 1
+                    await self._gac(pr, tg.get("rex", False), 0)
 
     async def idle(self, quiet=False):
         lp = self.loop
